@@ -38,8 +38,26 @@ class Fn:
             self.exit = cfg["exit"]
             for b in cfg["blocks"]:
                 self.blocks[b["id"]] = b
+            self._cut_dependent_noreturn()
             self._drop_assert_failures()
         self._preds = None
+
+    def _cut_dependent_noreturn(self):
+        """In a template pattern a call with a type-dependent argument is unresolved, so clang's CFG lets `raise(.., n, ..)` fall through. When
+        every candidate of the call is [[noreturn]] (extractor: dep + noreturn) the statement ends its block like a resolved noreturn call does."""
+        for bid, b in self.blocks.items():
+            if b.get("noreturn"):
+                continue
+            els = b.get("elems", [])
+            for i, e in enumerate(els):
+                x = e.get("expr") if isinstance(e.get("expr"), dict) else None
+                x = unwrap(x) if x is not None else None
+                if e.get("kind") == "stmt" and isinstance(x, dict) and x.get("k") == "call" and x.get("dep") and x.get("noreturn"):
+                    b["elems"] = els[:i + 1]
+                    b["noreturn"] = True
+                    b["succ"] = [{"to": self.exit}]
+                    b["term"] = {"kind": "none"}
+                    break
 
     _ASSERT_FAIL = ("__assert_fail", "__assert", "__assert_perror_fail", "__assert_rtn", "__assert_func")
 
